@@ -10,8 +10,9 @@
   scalars on the way of a dotted path are all inside D now).
   Scope limits (nothing claimed): ops (operator fields: judged by the per-field oracle),
     oddvalue / oddid (values other than 0/1/true/false), mixed, collision, badkey, positional,
-    idpath (`_id.x`), dupkeys (not a dict), malformed; for `$project` also idinexclusion
-    (`_id: 1` next to excluded fields: the stage refuses it).
+    idpath (`_id.x`), dupkeys (not a dict), malformed.  (`$project` with `_id: 1` next to
+    excluded fields, once refused by the stage — class `idinexclusion` — is accepted since the
+    repair recorded as C03 `projectidexcl`, and inside D.)
 -/
 import Spec.Project
 
@@ -80,9 +81,7 @@ def aggReasons (p d : Val) : List String :=
      if !rs.isEmpty then rs
      else match normDict fields with
        | none => ["malformed"]
-       | some n =>
-         (if !n.incl && (dget "_id" fields).bind flagOf == some true then ["idinexclusion"]
-          else []))
+       | some _ => [])
   | _, _ => ["malformed"]
 
 def aggInD (p d : Val) : Bool := (aggReasons p d).isEmpty
